@@ -1,5 +1,492 @@
 import QModel.Core
-/-! C12 — model (not built yet) -/
+/-!
+# C12 — loss values, derivatives and fast paths (model of quara/loss_function/*.py, quara/math/entropy.py)
+
+The predicted distributions of a standard tomography are affine, `p_j(x) = A_j x + b_j`
+(`set_func_prob_dists_from_standard_qt` slices `matA`, `vecB`); a schedule is the record `Sched`.
+* `wseValue/wseGrad/wseHess`     = `WeightedProbabilityBasedSquaredError.value/gradient/hessian`
+  (`multiply_veca_vecb(_matc)`; the Hessian of an affine `p` is the zero vector the code gets from
+  `_generate_func_hessian_prob_dist`);
+* `fastValue/fastGrad`           = the `StandardQTomographyBased…SquaredError` methods on the stacked
+  `matA`, `vecB`, `q_flat` and the cached block matrix `_extend_weight_matrix` (`np.block`);
+* `FastWse`, `GenWse`, `configure…` = the cached fields as an explicit state record and the call order of
+  `set_from_standard_qtomography_option_data` (option, q, model, gradient model, *then* weights);
+* `invCovWeights`                = the `inverse_*_covariance` branch of `_set_weights_by_mode` incl. the slice
+  assignment `weight_matrix[:row, :col] = inv` (numpy `inv` and `num_data ** 1.5` are parameters);
+* `relEnt…`                      = `relative_entropy(_vector)`, `gradient_/hessian_relative_entropy_2nd(_vector)`
+  with their `eps_q/eps_p` clipping; the values `np.log(·)` are parameters (one per outcome);
+* `wre…`, `fastWre…`, `configureWre` = `WeightedRelativeEntropy` and its fast variant, incl. the fact that the
+  method the base class calls, `_set_weights_by_mode`, is not overridden there (the class defines
+  `_sets_weight_by_mode`), so option weights never reach `weights`.
+-/
 namespace QM.C12
-def handle (_args : List String) : Option String := none
+open QM
+
+/-! ## weighted squared error -/
+section wse
+variable {K : Type} [Add K] [Sub K] [Mul K] [Zero K] [One K]
+
+/-- one schedule: `p(x) = A x + b`, data `q` -/
+structure Sched (K : Type) (m nv : Nat) where
+  A : Mat K m nv
+  b : Vec K m
+  q : Vec K m
+
+/-- `func_prob_dists[j](var) - prob_dists_q[j]` -/
+def resid {m nv : Nat} (s : Sched K m nv) (x : Vec K nv) : Vec K m := ((s.A.mulVec x).add s.b).sub s.q
+
+/-- `func_gradient_prob_dists[j](alpha, var)`: column `alpha` of the block of `matA` -/
+def gradP {m nv : Nat} (s : Sched K m nv) (α : Fin nv) : Vec K m := Vec.ofFn fun i => s.A.get i α
+
+/-- `multiply_veca_vecb_matc(a, b, C) = a · (C b)`, or `multiply_veca_vecb` when there is no weight -/
+def bil {m : Nat} (W : Option (Mat K m m)) (a b : Vec K m) : K :=
+  match W with
+  | some W => a.dot (W.mulVec b)
+  | none => a.dot b
+
+/-- weight matrix of schedule `j` (`self.weight_matrices[index]`; `None`/empty list = no weights) -/
+def weightAt {m : Nat} (Ws : Option (List (Mat K m m))) (j : Nat) : Option (Option (Mat K m m)) :=
+  match Ws with
+  | none => some none
+  | some [] => some none            -- `if self.weight_matrices:` is false for an empty list
+  | some l => (l[j]?).map some      -- IndexError when there are fewer matrices than schedules
+
+inductive Err
+  | index | broadcast | shape | noWeights
+deriving Repr, DecidableEq
+
+def Err.toString : Err → String
+  | .index => "index" | .broadcast => "broadcast" | .shape => "shape" | .noWeights => "noWeights"
+
+/-- sum over the schedules of `f j sched W_j` -/
+def sumSched {m nv : Nat} (ss : List (Sched K m nv)) (Ws : Option (List (Mat K m m)))
+    (f : Sched K m nv → Option (Mat K m m) → K) : Except Err K :=
+  let rec go : List (Sched K m nv) → Nat → Except Err K
+    | [], _ => .ok 0
+    | s :: r, j =>
+      match weightAt Ws j with
+      | none => .error .index
+      | some W => do
+        let rest ← go r (j + 1)
+        .ok (f s W + rest)
+  go ss 0
+
+/-- `WeightedProbabilityBasedSquaredError.value` -/
+def wseValue {m nv : Nat} (ss : List (Sched K m nv)) (Ws : Option (List (Mat K m m))) (x : Vec K nv) :
+    Except Err K :=
+  sumSched ss Ws fun s W => bil W (resid s x) (resid s x)
+
+/-- component `alpha` of `gradient` (before the factor 2) -/
+def wseGradHalf {m nv : Nat} (ss : List (Sched K m nv)) (Ws : Option (List (Mat K m m))) (x : Vec K nv)
+    (α : Fin nv) : Except Err K :=
+  sumSched ss Ws fun s W => bil W (gradP s α) (resid s x)
+
+/-- entry `(alpha, beta)` of `hessian` (before the factor 2); the second term is the code's
+`multiply(hess, p − q)` with `hess = 0` for affine `p` -/
+def wseHessHalf {m nv : Nat} (ss : List (Sched K m nv)) (Ws : Option (List (Mat K m m))) (x : Vec K nv)
+    (α β : Fin nv) : Except Err K :=
+  sumSched ss Ws fun s W => bil W (gradP s α) (gradP s β) + bil W Vec.zero (resid s x)
+
+def two : K := 1 + 1
+
+/-! ### fast path: stacked vectors and the cached block-diagonal weight matrix -/
+
+/-- stacked vector: entry `i` of the concatenation of the blocks -/
+def catEntry {m : Nat} : List (Vec K m) → Nat → K
+  | [], _ => 0
+  | v :: r, i => if h : i < m then v.get ⟨i, h⟩ else catEntry r (i - m)
+
+/-- `np.block` of `[[W0,0,…],[0,W1,…],…]`: entry `(i,j)` -/
+def blockEntry {m : Nat} : List (Mat K m m) → Nat → Nat → K
+  | [], _, _ => 0
+  | W :: r, i, j =>
+    if h : i < m ∧ j < m then W.get ⟨i, h.1⟩ ⟨j, h.2⟩
+    else if m ≤ i ∧ m ≤ j then blockEntry r (i - m) (j - m)
+    else 0
+
+/-- `a · (E b)` over stacked vectors of total length `N`; `E = none` ⇒ `a · b` -/
+def bilFlat (N : Nat) (E : Option (Nat → Nat → K)) (a b : Nat → K) : K :=
+  match E with
+  | some E => fsum N fun i => a i.val * fsum N fun j => E i.val j.val * b j.val
+  | none => fsum N fun i => a i.val * b i.val
+
+/-- `_calc_extend_weight_matrix` result; `Ws.length` blocks of size `m` (shape `(len·m)²`) -/
+structure ExtW (K : Type) (m : Nat) where
+  blocks : List (Mat K m m)
+
+/-- `StandardQTomographyBased…SquaredError.value`: `vec = matA @ var + vecB − q_flat`, `vec · (E vec)`.
+`ValueError` (shape) when the cached matrix does not have the size of the stacked vector. -/
+def fastValue {m nv : Nat} (ss : List (Sched K m nv)) (E : Option (ExtW K m)) (x : Vec K nv) :
+    Except Err K :=
+  let N := ss.length * m
+  let vec := catEntry (ss.map fun s => resid s x)
+  match E with
+  | none => .ok (bilFlat N none vec vec)
+  | some e =>
+    if e.blocks.length ≠ ss.length then .error .shape
+    else .ok (bilFlat N (some (blockEntry e.blocks)) vec vec)
+
+/-- component `alpha` of the fast gradient before the factor 2: `(matAᵀ E vec)_alpha` -/
+def fastGradHalf {m nv : Nat} (ss : List (Sched K m nv)) (E : Option (ExtW K m)) (x : Vec K nv)
+    (α : Fin nv) : Except Err K :=
+  let N := ss.length * m
+  let vec := catEntry (ss.map fun s => resid s x)
+  let col := catEntry (ss.map fun s => gradP s α)
+  match E with
+  | none => .ok (bilFlat N none col vec)
+  | some e =>
+    if e.blocks.length ≠ ss.length then .error .shape
+    else .ok (bilFlat N (some (blockEntry e.blocks)) col vec)
+
+end wse
+
+/-! ## option wiring (state records) -/
+section wiring
+variable {K : Type} [Add K] [Sub K] [Mul K] [Div K] [Zero K] [One K] [LT K] [DecidableLT K] [NatCast K]
+
+inductive Mode
+  | identity | custom | invSample | invUnbiased
+deriving Repr, DecidableEq
+
+/-- `…Option(mode_weight, weights)`; the constructor forces `mode = custom` when weights are given -/
+structure Opt (K : Type) (m : Nat) where
+  mode : Mode
+  weights : Option (List (Mat K m m))
+
+def mkOpt {m : Nat} (mode : Mode) (weights : Option (List (Mat K m m))) : Opt K m :=
+  match weights with
+  | some w => ⟨.custom, some w⟩
+  | none => ⟨mode, none⟩
+
+/-- `replace_prob_dist(p)` with the default eps on a vector -/
+def replaceVec {m : Nat} (p : Vec K m) (eps : K) : Vec K m :=
+  let cnt := ((List.finRange m).filter fun i => decide (p.get i < eps)).length
+  Vec.ofFn fun i => if p.get i < eps then eps else p.get i - (eps * (cnt : K)) / ((m - cnt : Nat) : K)
+
+/-- `calc_covariance_mat(q, n)` (as in QModel.C19) -/
+def covMat {m : Nat} (q : Vec K m) (n : K) : Mat K m m :=
+  Mat.ofFn fun i j => ((if i = j then q.get i else 0) - q.get i * q.get j) / n
+
+/-- the matrix handed to `np.linalg.inv`: `cov[:-1,:-1] + eye(row−1) / num_data**1.5` -/
+def extracted {m : Nat} (cov : Mat K m m) (n32 : K) : Mat K (m - 1) (m - 1) :=
+  Mat.ofFn fun i j => cov.get ⟨i.val, by omega⟩ ⟨j.val, by omega⟩ + (if i = j then 1 else 0) / n32
+
+/-- one weight matrix of the `inverse_*_covariance` modes; `Ginv` is numpy's inverse of `extracted`.
+`row == 2`: only entry `[0,0]` is filled; otherwise the code assigns the `(row−1)²` inverse to the
+whole `row × col` slice, which numpy rejects (broadcast) for every `row ≥ 3`. -/
+def invCovWeight {m : Nat} (Ginv : Mat K (m - 1) (m - 1)) : Except Err (Mat K m m) :=
+  if h : m = 2 then
+    .ok (Mat.ofFn fun i j => if i.val = 0 ∧ j.val = 0 then Ginv.get ⟨0, by omega⟩ ⟨0, by omega⟩ else 0)
+  else .error .broadcast
+
+def invCovWeights {m : Nat} (Ginvs : List (Mat K (m - 1) (m - 1))) : Except Err (List (Mat K m m)) :=
+  Ginvs.mapM invCovWeight
+
+/-- `_set_weights_by_mode` of the squared-error losses: the new value of `_weight_matrices`
+(`identity` leaves the field as it is). -/
+def weightsByMode {m : Nat} (opt : Opt K m) (cur : Option (List (Mat K m m)))
+    (Ginvs : List (Mat K (m - 1) (m - 1))) : Except Err (Option (List (Mat K m m))) :=
+  match opt.mode with
+  | .identity => .ok cur
+  | .custom => .ok opt.weights
+  | .invSample | .invUnbiased => do
+      let ws ← invCovWeights Ginvs
+      .ok (some ws)
+
+/-- fields of the generic loss that matter for weighting -/
+structure GenWse (K : Type) (m : Nat) where
+  weightMatrices : Option (List (Mat K m m))
+
+/-- fields of the fast loss: `_weight_matrices` and the cached `_extend_weight_matrix` -/
+structure FastWse (K : Type) (m : Nat) where
+  weightMatrices : Option (List (Mat K m m))
+  extW : Option (ExtW K m)
+
+/-- `_calc_extend_weight_matrix`: nothing happens while `weight_matrices is None` -/
+def calcExt {m : Nat} (st : FastWse K m) : FastWse K m :=
+  match st.weightMatrices with
+  | none => st
+  | some ws => { st with extW := some ⟨ws⟩ }
+
+/-- `set_from_standard_qtomography_option_data` on the generic loss -/
+def configureGen {m : Nat} (st : GenWse K m) (opt : Opt K m) (Ginvs : List (Mat K (m - 1) (m - 1))) :
+    Except Err (GenWse K m) := do
+  let w ← weightsByMode opt st.weightMatrices Ginvs
+  .ok { weightMatrices := w }
+
+/-- `set_from_standard_qtomography_option_data` on the fast loss, in the code's order:
+option, q, `set_func_prob_dists_from_standard_qt` (→ `_calc_extend_weight_matrix`), if required
+`set_func_gradient_prob_dists_from_standard_qt` (→ again), and only then `_set_weights_by_mode`. -/
+def configureFast {m : Nat} (st : FastWse K m) (opt : Opt K m) (gradRequired : Bool)
+    (Ginvs : List (Mat K (m - 1) (m - 1))) : Except Err (FastWse K m) := do
+  let st1 := calcExt st
+  let st2 := if gradRequired then calcExt st1 else st1
+  let w ← weightsByMode opt st2.weightMatrices Ginvs
+  .ok { st2 with weightMatrices := w }
+
+end wiring
+
+/-! ## relative entropy -/
+section entropy
+variable {K : Type} [Add K] [Sub K] [Mul K] [Div K] [Neg K] [Zero K] [One K] [LT K] [DecidableLT K]
+  [LE K] [DecidableLE K]
+
+/-- `round_varz(z, eps)` = `np.where(z > eps, z, eps)` -/
+def roundVarz (z eps : K) : K := if eps < z then z else eps
+
+/-- argument of the logarithm for one outcome -/
+def logArg (q p epsq epsp : K) : K := roundVarz (roundVarz q epsq / roundVarz p epsp) epsp
+
+/-- `relative_entropy(q, p)`; `logs[i]` is `np.log` of `logArg q_i p_i` (numpy kernel). -/
+def relEnt (epsq epsp : K) : List K → List K → List K → K
+  | q :: qs, _p :: ps, l :: ls =>
+    (if epsq ≤ q then roundVarz q epsq * l else 0) + relEnt epsq epsp qs ps ls
+  | _, _, _ => 0
+
+/-- `truncate_computational_fluctuation(q, eps)` -/
+def truncQ (q eps : K) : K := if (if q < 0 then -q else q) < eps then 0 else q
+
+/-- `np.sum(relative_entropy_vector(q, p))` -/
+def relEntVec (epsq epsp : K) : List K → List K → List K → K
+  | q :: qs, _p :: ps, l :: ls => truncQ q epsq * l + relEntVec epsq epsp qs ps ls
+  | _, _, _ => 0
+
+/-- component of `gradient_relative_entropy_2nd(q, p, grad_ps)`; `gs[i]` = ∂_α p_i -/
+def relEntGrad (epsq epsp : K) : List K → List K → List K → K
+  | q :: qs, p :: ps, g :: gs =>
+    (if epsq ≤ q then -q * g / roundVarz p epsp else 0) + relEntGrad epsq epsp qs ps gs
+  | _, _, _ => 0
+
+/-- component of `np.sum(gradient_relative_entropy_2nd_vector(…), axis=0)` -/
+def relEntGradVec (epsq epsp : K) : List K → List K → List K → K
+  | q :: qs, p :: ps, g :: gs =>
+    (-(truncQ q epsq) / roundVarz p epsp) * g + relEntGradVec epsq epsp qs ps gs
+  | _, _, _ => 0
+
+/-- entry of `hessian_relative_entropy_2nd` for affine `p` (`hess_p = 0`): `ga[i] = ∂_α p_i`, `gb[i] = ∂_β p_i` -/
+def relEntHess (epsq epsp : K) : List K → List K → List K → List K → K
+  | q :: qs, p :: ps, a :: ga, b :: gb =>
+    (if epsq ≤ q then -q * 0 / roundVarz p epsp
+        + (q / (roundVarz p epsp * roundVarz p epsp)) * (a * b) else 0)
+      + relEntHess epsq epsp qs ps ga gb
+  | _, _, _, _ => 0
+
+/-- `WeightedRelativeEntropy.value`: `Σ_j w_j · relative_entropy(q_j, p_j)`; `weights = none` or empty ⇒ no weights
+(`if self.weights:`); fewer weights than schedules ⇒ IndexError -/
+def wreSum (ws : Option (List K)) (terms : List K) : Except Unit K :=
+  match ws with
+  | none | some [] => .ok (lsum terms)
+  | some w =>
+    if w.length < terms.length then .error ()
+    else .ok (lsum ((w.zip terms).map fun (a, t) => a * t))
+
+/-- fields of the relative-entropy losses that matter for weighting -/
+structure WreState (K : Type) where
+  weights : Option (List K)
+  extWeights : Option (List K)     -- fast variant only
+
+/-- `_calc_extend_weights`: every weight repeated `len(q_j)` times; nothing while `weights is None` -/
+def calcExtWeights (st : WreState K) (lens : List Nat) : WreState K :=
+  match st.weights with
+  | none => st
+  | some w => { st with extWeights := some ((w.zip lens).flatMap fun (a, n) => List.replicate n a) }
+
+/-- `set_from_standard_qtomography_option_data` on either relative-entropy loss: the base-class hook
+`_set_weights_by_mode` is the empty default (the subclass only defines `_sets_weight_by_mode`), so the
+option's weights are stored in the option and nowhere else. -/
+def configureWre (st : WreState K) (_optWeights : Option (List K)) (lens : List Nat) (fast gradRequired : Bool) :
+    WreState K :=
+  if fast then
+    let st1 := calcExtWeights st lens
+    if gradRequired then calcExtWeights st1 lens else st1
+  else st
+
+/-- `StandardQTomographyBasedWeightedRelativeEntropy.value`: `Σ extW_i · vector_i` (`weights is not None`)
+or `Σ vector_i`; numpy multiplies elementwise, so lengths must agree (else ValueError). -/
+def fastWreSum (st : WreState K) (vector : List K) : Except Unit K :=
+  match st.weights with
+  | none => .ok (lsum vector)
+  | some _ =>
+    match st.extWeights with
+    | none => .error ()            -- AttributeError: `_extend_weights` was never computed
+    | some e =>
+      if e.length ≠ vector.length ∧ e.length ≠ 1 ∧ vector.length ≠ 1 then .error ()
+      else .ok (lsum ((e.zip vector).map fun (a, t) => a * t))
+
+end entropy
+
+/-! ## driver -/
+
+def mkMat (r c : Nat) (l : List Rat) : Option (Mat Rat r c) :=
+  if l.length = r * c then
+    let a := l.toArray
+    some (Mat.ofFn fun i j => a.getD (i.val * c + j.val) 0)  -- in range by the length test
+  else none
+
+def mkVec (n : Nat) (l : List Rat) : Option (Vec Rat n) :=
+  if l.length = n then
+    let a := l.toArray
+    some (Vec.ofFn fun i => a.getD i.val 0)
+  else none
+
+/-- `S` schedules: `A_1 b_1 q_1 …` (flat) -/
+def parseScheds (m nv : Nat) : Nat → List String → Option (List (Sched Rat m nv) × List String)
+  | 0, rest => some ([], rest)
+  | s + 1, a :: b :: q :: rest => do
+      let A ← mkMat m nv (← parseList? parseRat? a)
+      let b ← mkVec m (← parseList? parseRat? b)
+      let q ← mkVec m (← parseList? parseRat? q)
+      let (l, rest') ← parseScheds m nv s rest
+      some (⟨A, b, q⟩ :: l, rest')
+  | _, _ => none
+
+def parseMats (r c : Nat) : Nat → List String → Option (List (Mat Rat r c) × List String)
+  | 0, rest => some ([], rest)
+  | k + 1, a :: rest => do
+      let A ← mkMat r c (← parseList? parseRat? a)
+      let (l, rest') ← parseMats r c k rest
+      some (A :: l, rest')
+  | _, _ => none
+
+/-- optional weight list: `none` | `k W_1 … W_k` -/
+def parseWeights (m : Nat) : List String → Option (Option (List (Mat Rat m m)) × List String)
+  | "none" :: rest => some (none, rest)
+  | k :: rest => do
+      let k ← parseNat? k
+      let (l, rest') ← parseMats m m k rest
+      some (some l, rest')
+  | _ => none
+
+def showE (x : Except Err Rat) : String :=
+  match x with
+  | .ok v => s!"ok {showRat v}"
+  | .error e => s!"err {e.toString}"
+
+def showEs (xs : List (Except Err Rat)) : String :=
+  match xs.mapM id with
+  | .ok vs => s!"ok {showList showRat vs}"
+  | .error e => s!"err {e.toString}"
+
+def matList {r c : Nat} (A : Mat Rat r c) : List Rat :=
+  (List.finRange r).flatMap fun i => (List.finRange c).map fun j => A.get i j
+
+def showWs {m : Nat} (w : Option (List (Mat Rat m m))) : String :=
+  match w with
+  | none => "none"
+  | some l => s!"some:{l.length}:" ++ showList showRat (l.flatMap matList)
+
+def parseMode : String → Option Mode
+  | "identity" => some .identity | "custom" => some .custom
+  | "inverse_sample_covariance" => some .invSample | "inverse_unbiased_covariance" => some .invUnbiased
+  | _ => none
+
+def parseOptList (s : String) : Option (Option (List Rat)) :=
+  if s = "none" then some none else (parseList? parseRat? s).map some
+
+/-- a configuration round: `mode  weights  k Ginv_1…Ginv_k` -/
+def parseRound (m : Nat) : List String →
+    Option ((Opt Rat m × List (Mat Rat (m - 1) (m - 1))) × List String)
+  | mode :: rest => do
+      let mode ← parseMode mode
+      let (w, rest1) ← parseWeights m rest
+      match rest1 with
+      | k :: rest2 => do
+          let k ← parseNat? k
+          let (g, rest3) ← parseMats (m - 1) (m - 1) k rest2
+          some ((mkOpt mode w, g), rest3)
+      | [] => none
+  | [] => none
+
+def parseRounds (m : Nat) : Nat → List String →
+    Option (List (Opt Rat m × List (Mat Rat (m - 1) (m - 1))) × List String)
+  | 0, rest => some ([], rest)
+  | k + 1, rest => do
+      let (r, rest1) ← parseRound m rest
+      let (l, rest2) ← parseRounds m k rest1
+      some (r :: l, rest2)
+
+def handle (args : List String) : Option String :=
+  match args with
+  -- generic / fast squared error at a point: value, gradient, (hessian)
+  | "wse" :: which :: m :: nv :: s :: x :: rest => do
+      let m ← parseNat? m
+      let nv ← parseNat? nv
+      let s ← parseNat? s
+      let x ← mkVec nv (← parseList? parseRat? x)
+      let (ss, rest1) ← parseScheds m nv s rest
+      let (ws, rest2) ← parseWeights m rest1
+      if !rest2.isEmpty then none
+      let idx := List.finRange nv
+      if which = "value" then some (showE (wseValue ss ws x))
+      else if which = "grad" then
+        some (showEs (idx.map fun α => (wseGradHalf ss ws x α).map fun v => two * v))
+      else if which = "hess" then
+        some (showEs (idx.flatMap fun α => idx.map fun β => (wseHessHalf ss ws x α β).map fun v => two * v))
+      else if which = "fvalue" then some (showE (fastValue ss (ws.map fun l => ⟨l⟩) x))
+      else if which = "fgrad" then
+        some (showEs (idx.map fun α => (fastGradHalf ss (ws.map fun l => ⟨l⟩) x α).map fun v => two * v))
+      else none
+  -- inverse-covariance weight inputs: the matrix handed to numpy's inv
+  | ["extracted", m, q, eps, n, n32] => do
+      let m ← parseNat? m
+      let q ← mkVec m (← parseList? parseRat? q)
+      let eps ← parseRat? eps
+      let n ← parseRat? n
+      let n32 ← parseRat? n32
+      some s!"ok {showList showRat (matList (extracted (covMat (replaceVec q eps) n) n32))}"
+  -- weights in force after a sequence of configurations of a fresh object
+  | "wiring" :: which :: m :: grad :: k :: rest => do
+      let m ← parseNat? m
+      let k ← parseNat? k
+      let (rounds, rest1) ← parseRounds m k rest
+      if !rest1.isEmpty then none
+      if which = "generic" then
+        let r := rounds.foldlM (fun (st : GenWse Rat m) (o, g) => configureGen st o g) ⟨none⟩
+        match r with
+        | .ok st => some s!"ok {showWs st.weightMatrices}"
+        | .error e => some s!"err {e.toString}"
+      else if which = "fast" then
+        let r := rounds.foldlM (fun (st : FastWse Rat m) (o, g) => configureFast st o (grad = "true") g) ⟨none, none⟩
+        match r with
+        | .ok st => some s!"ok {showWs st.weightMatrices} {showWs (st.extW.map fun e => e.blocks)}"
+        | .error e => some s!"err {e.toString}"
+      else none
+  -- relative entropy pieces for one schedule
+  | ["relent", which, epsq, epsp, q, p, l] => do
+      let epsq ← parseRat? epsq
+      let epsp ← parseRat? epsp
+      let q ← parseList? parseRat? q
+      let p ← parseList? parseRat? p
+      let l ← parseList? parseRat? l
+      if which = "value" then some s!"ok {showRat (relEnt epsq epsp q p l)}"
+      else if which = "vvalue" then some s!"ok {showRat (relEntVec epsq epsp q p l)}"
+      else if which = "grad" then some s!"ok {showRat (relEntGrad epsq epsp q p l)}"
+      else if which = "vgrad" then some s!"ok {showRat (relEntGradVec epsq epsp q p l)}"
+      else if which = "logarg" then
+        some s!"ok {showList showRat ((q.zip p).map fun (a, b) => logArg a b epsq epsp)}"
+      else none
+  | ["relenthess", epsq, epsp, q, p, ga, gb] => do
+      let epsq ← parseRat? epsq
+      let epsp ← parseRat? epsp
+      let q ← parseList? parseRat? q
+      let p ← parseList? parseRat? p
+      let ga ← parseList? parseRat? ga
+      let gb ← parseList? parseRat? gb
+      some s!"ok {showRat (relEntHess epsq epsp q p ga gb)}"
+  -- weighted sums of the per-schedule terms and the weights in force after configuration
+  | ["wresum", ws, terms] => do
+      let ws ← parseOptList ws
+      let terms ← parseList? parseRat? terms
+      match wreSum ws terms with
+      | .ok v => some s!"ok {showRat v}"
+      | .error _ => some "err index"
+  | ["wrewiring", fast, grad, ctorW, optW, lens] => do
+      let ctorW ← parseOptList ctorW
+      let optW ← parseOptList optW
+      let lens ← parseList? parseNat? lens
+      let st := configureWre (K := Rat) ⟨ctorW, none⟩ optW lens (fast = "true") (grad = "true")
+      let sh := fun (o : Option (List Rat)) => match o with | none => "none" | some l => showList showRat l
+      some s!"ok {sh st.weights} {sh st.extWeights}"
+  | _ => none
+
 end QM.C12
